@@ -20,7 +20,8 @@ func init() {
 			"(T) predicate truth tables: isHTMLRequest is false for every method but GET and otherwise Contains(Accept, \"text/html\"); isFrameableHTMLResponse is false for every status but 200, false for attachments, true only from the Content-Type loop (text/html, application/xhtml+xml); isAlreadyFramed constants; the cache / frame-option header constants; " +
 			"(S) shim: every store to resp.Body and every resp.Header mutation in the ModifyResponse function is unreachable when Content-Type does not contain \"html\"; the new body is MultiReader(prefix, original body) closed through the original body; the script is inserted by strings.Replace(prefix, \"<head>\", \"<head>\"+script, 1) — or, if the code indexes and slices instead, index and slice operate on the same string. " +
 			"(M) rendered pages and spliced prefixes live in call-owned memory (no sync.Pool, no buffer captured by the per-response hook); (P) hostProxy sets only Transport, FlushInterval and ModifyResponse on the backend-facing proxy (a Director that drops Accept-Encoding would recode every non-HTML body). " +
-			"On the already-framed branch only the cache and X-Frame-Options headers may change.",
+			"On the already-framed branch only the cache and X-Frame-Options headers may change." +
+			" The shimmed body is the only body the splice installs and the original body is not closed on a path that serves the response.",
 		Assumptions: []string{"strings.Replace with n=1 replaces the first occurrence; io.MultiReader concatenates without loss"},
 		Run:         runC14,
 	})
